@@ -1,6 +1,6 @@
 """Generated Bob projects for C06: dependency DAGs with packages reached on several paths, shared
 checkouts, tools used by build and checkout steps (checkout tools are cooked completely even in
-checkout-only mode), packages without checkout / build script (invalid steps) and several roots.
+checkout-only mode), build variants of one package that share its checkout workspace, packages without checkout / build script (invalid steps) and several roots.
 
 `gen_spec(rng, n)` draws a project description, `write_project(spec, dir, real=...)` writes the recipes.
 With real=True the scripts are real bash: they append start/end events to <project>/events.log, sleep for
@@ -14,15 +14,17 @@ def gen_spec(r, n=None, roots=None):
     pk = []
     for i in range(n):
         later = list(range(i + 1, n))
-        k = min(len(later), r.choice([0, 1, 1, 2, 2, 3]))
+        k = min(len(later), r.choice([0, 1, 1, 2, 2, 3, 4]))
         deps = sorted(r.sample(later, k)) if k else []
         pk.append({
             "name": "p%d" % i,
             "deps": deps,
+            "env": {},               # dependency index -> value of V handed to that dependency
             "checkout": r.random() < 0.55,
             "build": r.random() < 0.85,
             "package": True,
             "tool": False,           # provides a tool
+            "variant": False,        # build step consumes $V: one checkout shared by several build variants
             "buildTools": [],
             "checkoutTools": [],
             "dur": [r.choice([0.0, 0.02, 0.05, 0.1]) for _ in range(3)],
@@ -34,39 +36,42 @@ def gen_spec(r, n=None, roots=None):
     for i in range(n):
         for j in range(i + 1, n):
             if pk[j]["tool"] and r.random() < 0.4:
-                # the tool has to be a dependency to be usable
                 if r.random() < 0.6:
                     pk[i]["buildTools"].append(j)
                 else:
                     pk[i]["checkoutTools"].append(j)
                     pk[i]["checkout"] = True
+    # variants: a package (with checkout and build script, no tool) that is built once per value of V
+    for i in range(1, n):
+        if pk[i]["checkout"] and pk[i]["build"] and not pk[i]["tool"] and r.random() < 0.35:
+            pk[i]["variant"] = True
+    for i in range(n):
+        for j in pk[i]["deps"]:
+            if pk[j]["variant"]:
+                pk[i]["env"][str(j)] = r.choice(["a", "b"])
     nroots = roots or r.choice([1, 1, 2, 3])
     rootset = sorted(set([0] + [r.randrange(n) for _ in range(nroots - 1)]))
-    # a shared checkout: two packages with an identical checkout script (same variant id -> same workspace)
-    shared = None
-    cands = [i for i in range(n) if pk[i]["checkout"] and not pk[i]["checkoutTools"]]
-    if len(cands) >= 2 and r.random() < 0.5:
-        shared = sorted(r.sample(cands, 2))
-    return {"packages": pk, "roots": rootset, "shared_checkout": shared}
+    return {"packages": pk, "roots": rootset}
 
 
-def _script(real, what, pkg, dur, fail, depth):
+def _script(real, what, pkg, dur, fail, depth, variant=False):
     if not real:
-        return "true"
+        return "true # %s %s%s" % (pkg, what, " $V" if variant else "")
     up = "/".join([".."] * depth)
+    tag = "%s %s" % (pkg, what)
     lines = [
         'L="$PWD/%s/events.log"' % up,
-        'echo "start %s %s $PWD" >> "$L"' % (pkg, what),
+        'echo "start %s $PWD" >> "$L"' % tag,
         "sleep %s" % dur,
     ]
     if fail:
-        lines += ['echo "end %s %s fail" >> "$L"' % (pkg, what), "exit 1"]
+        lines += ['echo "end %s $PWD fail" >> "$L"' % tag, "exit 1"]
     else:
         lines += [
-            'OUT="%s-%s("' % (pkg, what),
+            'OUT="%s-%s%s("' % (pkg, what, "-$V" if variant else ""),
             'for i in "$@" ; do if [ -f "$i/result.txt" ] ; then OUT="$OUT$(cat "$i/result.txt"),"; else OUT="$OUT?,"; fi; done',
             'echo "$OUT)" > result.txt',
-            'echo "end %s %s ok" >> "$L"' % (pkg, what),
+            'echo "end %s $PWD ok" >> "$L"' % tag,
         ]
     return "\n".join(lines)
 
@@ -77,20 +82,24 @@ def write_project(spec, d, real=False, fail=()):
     with open(os.path.join(d, "config.yaml"), "w") as f:
         f.write('bobMinimumVersion: "0.25"\n')
     pk = spec["packages"]
-    shared = spec.get("shared_checkout") or []
     for i, p in enumerate(pk):
         out = []
         if i in spec["roots"]:
             out.append("root: True")
         deps = []
-        for j in p["deps"]:
-            deps.append("  - %s" % pk[j]["name"])
-        for j in sorted(set(p["buildTools"] + p["checkoutTools"])):
-            if j not in p["deps"]:
-                deps.append("  - name: %s\n    use: [tools]" % pk[j]["name"])
-            else:
-                deps.remove("  - %s" % pk[j]["name"])
-                deps.append("  - name: %s\n    use: [tools, result]" % pk[j]["name"])
+        tools = sorted(set(p["buildTools"] + p["checkoutTools"]))
+        for j in sorted(set(p["deps"]) | set(tools)):
+            entry = "  - name: %s" % pk[j]["name"]
+            use = []
+            if j in tools:
+                use.append("tools")
+            if j in p["deps"]:
+                use.append("result")
+            entry += "\n    use: [%s]" % ", ".join(use)
+            v = p.get("env", {}).get(str(j))
+            if v is not None:
+                entry += "\n    environment: {V: \"%s\"}" % v
+            deps.append(entry)
         if deps:
             out.append("depends:\n" + "\n".join(deps))
         if p["buildTools"]:
@@ -99,12 +108,12 @@ def write_project(spec, d, real=False, fail=()):
             out.append("checkoutTools: [%s]" % ", ".join("t%d" % j for j in p["checkoutTools"]))
         if p["tool"]:
             out.append("provideTools:\n  t%d: \".\"" % i)
+        if p.get("variant"):
+            out.append("buildVars: [V]")
 
         def scr(what, k, depth=5):
-            name = p["name"]
-            if what == "checkout" and i in shared:
-                name = "shared%d" % shared[0]
-            body = _script(real, what, name, p["dur"][k], (p["name"], what) in fail, depth)
+            body = _script(real, what, p["name"], p["dur"][k], (p["name"], what) in fail, depth,
+                           variant=(p.get("variant") and what == "build"))
             return "%sScript: |\n%s" % (what, "\n".join("  " + l for l in body.split("\n")))
         if p["checkout"]:
             out.append("checkoutDeterministic: True")
